@@ -135,3 +135,19 @@ M("C05", "pc-advanced-before-emit", PROG, "            node_bytes = node.emit(se
 M("C05", "opcode-node-absorbs-struct-error", NODES, "        except SymbolNotDefined as e:\n            raise NodeError(\n                f\"{e} ({self.value_node}) is not defined in the current scope.\",\n                self.file_info,\n            ) from e\n\n    def pc_after",
   "        except SymbolNotDefined as e:\n            raise NodeError(\n                f\"{e} ({self.value_node}) is not defined in the current scope.\",\n                self.file_info,\n            ) from e\n        except struct.error:\n            return b\"\"\n\n    def pc_after", "C05.R1")
 M("C05", "bias-as-sum-neutral", CPU, "            delta = physical_destination - pc\n            delta -= 2\n", "            delta = physical_destination - (pc + 2)\n", neutral=True)
+
+# ------------------------------------------------------------------ C06
+EXPRF = "a816/parse/ast/expression.py"
+M("C06", "swap-and-or-precedence", EXPRF, '    "&": 8,\n    "^": 9,\n    "|": 10,', '    "&": 10,\n    "^": 9,\n    "|": 8,', "C06.R1")
+M("C06", "shift-tighter-than-add", EXPRF, '    "<<": 5,\n    ">>": 5,', '    "<<": 3,\n    ">>": 3,', "C06.R1")
+M("C06", "minus-looser-than-plus", EXPRF, '    "+": 4,\n    "-": 4,', '    "+": 4,\n    "-": 5,', "C06.R1")
+M("C06", "right-associative", EXPRF, "OPERATOR_PRECEDENCE[operator_stack[-1].token.value] <= current_precedence", "OPERATOR_PRECEDENCE[operator_stack[-1].token.value] < current_precedence", "C06.R2")
+M("C06", "revert-prefix-never-pops", EXPRF, "                isinstance(expr, BinOp)\n                and len(operator_stack) > 0", "                len(operator_stack) > 0", "C06.R2")
+M("C06", "sub-operands-swapped", EXPRF, "r = v1 - v2", "r = v2 - v1", "C06.R3")
+M("C06", "shr-is-shl", EXPRF, "r = v1 >> v2", "r = v1 << v2", "C06.R3")
+M("C06", "pop-order-swapped", EXPRF, "            v2 = values_stack.pop()\n            v1 = values_stack.pop()\n", "            v1 = values_stack.pop()\n            v2 = values_stack.pop()\n", "C06.R3")
+M("C06", "complement-16-under-8", EXPRF, "r = ctypes.c_uint8(~v1).value", "r = ctypes.c_uint16(~v1).value", "C06.R3")
+M("C06", "unknown-binary-is-zero", EXPRF, '                raise RuntimeError("operator unknown")', "                r = 0", "C06.R3")
+M("C06", "binary-base-8", EXPRF, '    elif number.startswith("0b"):\n        base = 2', '    elif number.startswith("0b"):\n        base = 8', "C06.R4")
+M("C06", "renumber-neutral", EXPRF, '    "&": 8,\n    "^": 9,\n    "|": 10,', '    "&": 6,\n    "^": 7,\n    "|": 8,', neutral=True)
+M("C06", "for-bounds-second-evaluator", CG, "    to_val = eval_expression(node.max_value, resolver)", "    to_val = int(node.max_value.tokens[0].token.value, 0)", "C06.R5")
